@@ -76,8 +76,9 @@ def db_text(rng, cls, side):
     if cls == "three":
         return "1:2:3", None
     if cls == "junk":
-        return "abc", None
-    return "a:b", None
+        return ("abc" if rng is None else rng.choice(["abc", "1 2", "12e", "--5", "1,5", "NaNx", "0x10"])), None
+    # neither a number, nor two numbers, nor '*': trailing / leading / doubled colons included
+    return ("a:b" if rng is None else rng.choice(["a:b", "150:", ":150", "*:", "150::", "150:abc", "*:*", ":", "abc:150"])), None
 
 
 def build(cfg, rng=None):
